@@ -324,6 +324,11 @@ func objFullName(o types.Object) string {
 			return o.Pkg().Path() + "." + o.Name()
 		}
 		return o.Name()
+	case *types.Const:
+		if o.Pkg() != nil {
+			return o.Pkg().Path() + "." + o.Name()
+		}
+		return o.Name()
 	}
 	return o.Name()
 }
